@@ -96,7 +96,7 @@ def tlc(module, cfg, constants=None, workers=None, timeout=900, simulate=None,
         cfg_path = os.path.join(tmp, run_module + ".cfg")
         with open(cfg_path, "w") as f:
             f.write(cfg_text)
-        cmd = ["java", "-XX:+UseParallelGC", "-Xmx6g", "-cp", TLA_CP, "tlc2.TLC",
+        cmd = ["java", "-XX:+UseParallelGC", "-Xmx6g", "-Xss256m", "-cp", TLA_CP, "tlc2.TLC",
                "-workers", str(workers), "-metadir", os.path.join(tmp, "meta"),
                "-noGenerateSpecTE", "-config", cfg_path]
         if not deadlock:
@@ -160,8 +160,9 @@ def tlc(module, cfg, constants=None, workers=None, timeout=900, simulate=None,
                        or simulate is not None))
         if p.returncode != 0 and res.violated is None:
             # parse / semantic / evaluation error => machinery
-            raise MachineryError("TLC failed on %s (rc=%d):\n%s" % (
-                module, p.returncode, p.stdout[-3000:]))
+            i = p.stdout.find("Error:")
+            raise MachineryError("TLC failed on %s (rc=%d):\n%s\n...\n%s" % (
+                module, p.returncode, p.stdout[max(i, 0):max(i, 0) + 1500] if i >= 0 else "", p.stdout[-1200:]))
         return res
     finally:
         if not keep:
